@@ -130,8 +130,12 @@ def gen_enum(r, idx, hostile):
     members = []
     earlier = []
     cur = -1
+    # enumerators of a scoped enumeration live in the enumeration: several of them may use the same names
+    # (enum class Shade { RED = 20, DARK = RED + 5 } next to enum class Tint { RED = 1 }); a reference inside an
+    # enumeration means its own enumerator
+    pool = r.sample(range(8), n) if scoped and r.random() < 0.5 else None
     for i in range(n):
-        name = "M%d_%d" % (idx, i)
+        name = "M%d_%d" % (idx, i) if pool is None else "S%d" % pool[i]
         if mask >> i & 1 and r.random() < 0.3:
             text, v = gen_pattern(r, earlier)
             cur = v
@@ -272,7 +276,7 @@ def run_library(case):
         for e in enums:
             for n, t in e["members"]:
                 q = scope_of[e["name"]] + ((e["name"] + "::") if e["scoped"] else "") + n
-                cxx.append('  std::printf("%s %%d\\n", (int)%s);' % (n, q))
+                cxx.append('  std::printf("%s.%s %%d\\n", (int)%s);' % (e["name"], n, q))
         cxx.append("return 0;}")
         open(os.path.join(out, "orig.cpp"), "w").write("\n".join(cxx) + "\n")
         rc, so, se = sh(["g++", "-std=c++11", "-w", "orig.cpp", "-o", "orig"], out)
@@ -297,8 +301,8 @@ def run_library(case):
                     enum_cxx(e), tag, len(e["members"]), mem)})
                 continue
             for (n, t), g in zip(e["members"], mem):
-                cmap[n] = g
-                cprog.append('  printf("%s %%d\\n", (int)%s);' % (n, g))
+                cmap[e["name"] + "." + n] = g
+                cprog.append('  printf("%s.%s %%d\\n", (int)%s);' % (e["name"], n, g))
         cprog.append("return 0;}")
         open(os.path.join(out, "cprog.c"), "w").write("\n".join(cprog) + "\n")
         rc, so, se = sh(["gcc", "-std=c99", "-w", "cprog.c", "-o", "cprog"], out)
@@ -324,8 +328,8 @@ def run_library(case):
                 continue
             uses.add(ent[0])
             for (n, t), g in zip(e["members"], ent[1]):
-                fmap[n] = g
-                fprog.append("  print '(A,1X,I0)', '%s', %s" % (n, g))
+                fmap[e["name"] + "." + n] = g
+                fprog.append("  print '(A,1X,I0)', '%s.%s', %s" % (e["name"], n, g))
         src = ["program fprog"] + ["  use %s" % u for u in sorted(uses)] + ["  implicit none"] + fprog + ["end program fprog"]
         open(os.path.join(out, "fprog.f90"), "w").write("\n".join(src) + "\n")
         # order modules: namespace modules first (library module may use them)
@@ -350,13 +354,16 @@ def run_library(case):
             for lang, vals, names in (("c", cvals, cmap), ("fortran", fvals, fmap)):
                 wrong = set()
                 for n, t in e["members"]:
-                    want = truth.get(n)
-                    if n in vals:
+                    key = e["name"] + "." + n
+                    want = truth.get(key)
+                    if key in vals:
                         res["stats"]["values_compared"] = res["stats"].get("values_compared", 0) + 1
-                        if vals[n] != want:
+                        if n.startswith("S"):
+                            res["stats"]["shared_name_values_compared"] = res["stats"].get("shared_name_values_compared", 0) + 1
+                        if vals[key] != want:
                             # a member that only inherits a wrong value (implicit successor of, or expression
                             # over, an already wrong member) is the same defect, not a new one
-                            refs = set(re.findall(r"M\d+_\d+", t or ""))
+                            refs = set(re.findall(r"\b(?:M\d+_\d+|S\d+)\b", t or ""))
                             prev_wrong = (t is None and wrong) or (refs & wrong)
                             wrong.add(n)
                             if prev_wrong:
@@ -364,12 +371,12 @@ def run_library(case):
                                 continue
                             res["violations"].append({
                                 "mech": "value-differs:%s:%s" % (lang, classify(e, n)),
-                                "detail": "%s\n member %s: C++ %s, %s (%s) %s" % (enum_cxx(e), n, want, lang, names.get(n), vals[n])})
+                                "detail": "%s\n member %s: C++ %s, %s (%s) %s" % (enum_cxx(e), n, want, lang, names.get(key), vals[key])})
         if len(res["samples"]) < 2:
             e = enums[0]
-            res["samples"].append({"enum": enum_cxx(e), "cxx": {n: truth.get(n) for n, _ in e["members"]},
-                                   "c": {n: cvals.get(n) for n, _ in e["members"]},
-                                   "fortran": {n: fvals.get(n) for n, _ in e["members"]}})
+            res["samples"].append({"enum": enum_cxx(e), "cxx": {n: truth.get(e["name"] + "." + n) for n, _ in e["members"]},
+                                   "c": {n: cvals.get(e["name"] + "." + n) for n, _ in e["members"]},
+                                   "fortran": {n: fvals.get(e["name"] + "." + n) for n, _ in e["members"]}})
         res["shapes"] = sorted({shape(e) for e in enums})
         return res
     finally:
@@ -415,7 +422,7 @@ def classify(e, member):
 
 
 def shape(e):
-    return "%s/%d/%s" % (e["scoped"] or "plain", len(e["members"]),
+    return "%s%s/%d/%s" % (e["scoped"] or "plain", "+shared" if any(n.startswith("S") for n, _ in e["members"]) else "", len(e["members"]),
                          "".join("x" if t is not None else "." for _, t in e["members"])) + "/" + e.get("where", "")
 
 
